@@ -25,6 +25,10 @@ CLAIMS = {
    text="Deductive proof on the real ios code of the guard typestate over the real field reloadActive: sendReloadCmd arms, cancelReload disarms (also on the exceptional path, because it is deferred), every ios.cmd (change command) requires the armed guard, 'configure terminal' of the change block is sent under the guard, writeMem requires the cancelled guard and (C09) all changes accepted, ApplyCommands returns nil only with no reload pending; re-arm: cmd re-arms exactly once if a 'SHUTDOWN in 0:01:00' banner was recognised in the reply of either half of a joined command (genuine defect found and repaired: fix 9df1131); banner handling: stripReloadBanner cuts exactly the leftmost match [l0,l1) out of the output, takes the message from group [l2,l3), reports the one-minute warning iff the message matches, and leaves the output untouched when no guard is active or no banner is present.",
    note="Trusted: regexp semantics (FindStringSubmatchIndex/MatchString as uninterpreted functions with the index layout the code relies on); that the device sends one extra prompt after a banner ('logging synchronous') and expect buffering/timing are environment behaviour outside the code and not covered.",
    tech='contract-based deductive verification: typestate over a real field, ghost re-arm counter, functional postcondition on banner offsets'),
+ 'C20': dict(category='other', design_ref='DESIGN.md §4 C20, §9',
+   text="Two-part check. Deductive part: a zero-annotation safety sweep turns every index, slice, nil-dereference, map-write, type-assertion, division and explicit-panic site of every repository function (about 3100 sites) into an obligation over symbolic inputs; the ~2400 sites discharged on the unchanged tree (committed baseline) are proved panic-free for all inputs and must stay discharged - a change that removes a length check fails the named site obligation, usually with a model; the ~700 undecided sites are not claimed. Bounded part: the property's own finite family (word-prefix truncations, token deletions/duplications/swaps, double blanks, indentation changes, line deletion/duplication, JSON/XML structural mutations, empty/garbage files, info files) is executed on the real ParseConfig/MergeSpoc/GetChanges of all five device types; a runtime panic is a confirmed failing input and is reported without the no-failing-input-found suffix. 10 genuine defects found this way were repaired (fix: commits), two test-pinned deliberate panics are known findings.",
+   note="Not a proof of the whole property: undecided sites, termination ('never hang'), status-file and command-line handling are not covered by the deductive part; the bounded part mutates only the first 2 (quick) / 25 (thorough) lines of each test-data text. Assumptions: elements of slices of pointers to repository structs are non-nil (checked at every store in repository code, trusted for encoding/xml; encoding/json nulls are rejected by the repaired NSX parser); library calls do not panic.",
+   tech='zero-annotation safety VCs over go/ssa with committed baseline + bounded execution of the real code on the enumerated mutation family'),
  'C11': dict(category='proof', design_ref='DESIGN.md §4 C11',
    text="Deductive proof over all device answers: a ghost flag isCompareRun is assigned from the argument at entry of device.ApproveOrCompare; every send primitive (console.Conn.Send/IssueCmd/SendCmd/GetCmdOutput, panos httpPrefixGetLog, nsx sendRequest, http PostForm, linux putScp) carries the precondition 'not a compare run, or the command is in the fixed read-only set', which is discharged at every call site of every function on the load, compare and apply paths (approve/compare verified once per device type); scans prove the raw primitives are used only inside those wrappers; site assertions prove that drc -C and the do-approve verb select the path.",
    note="Trusted: the read-only command list in pkg/console/zz_contracts_verif.go is the specification; the PAN-OS keygen URL built by net/url is not inspected (scan only shows httpGet is reached from getAPIKey and httpPrefixGetLog); library calls are assumed not to talk to the device.",
@@ -40,6 +44,7 @@ def check(pid, c):
         level_claimed=dict(category=c['category'], text=c['text'], design_ref=c['design_ref']),
         level_note=c['note'], technique=c['tech'])
 
+ # inserted below
 NA = {
  'C19': "bash script plus git and the Netspoc compiler: no contract language or deductive verifier for shell is available here, and the quantifier is over kill points and concurrent invocations of processes (outside contract reasoning)",
 }
